@@ -80,6 +80,15 @@ def check_one(kind, n, k, full=True):
         if not valid:
             raise Violation('invalid-count-accepted', f'{kind} n={n} k={k}: split returned {len(shards)} shards')
     if not valid:
+        if k > n:
+            # ... also when the count arrives as an unsigned numpy integer (differences wrap around there)
+            for T in (np.uint8, np.uint16, np.uint64):
+                try:
+                    got = ds.split(T(k))
+                except Exception:
+                    continue
+                raise Violation('invalid-count-accepted', f'{kind} n={n}: split({T.__name__}({k})) returned '
+                                                          f'{[list(x) for x in got]}')
         try:
             got = ds.shard(k, 0)
         except Exception:
